@@ -37,6 +37,17 @@ class Result:
         self.notes = []
 
 
+# Floors on what a run must have judged (quick tier; the thorough tier judges more).  A run that stays below them has
+# decided nothing -- crashes skipped, a tool that died at start-up, a budget eaten by a rebuild -- and must not pass.
+# About a quarter of what a quick run on an idle machine reports (a tenth for the checks whose corpus is cut by a time budget).
+FLOORS = {
+    'C01': (200, 150, 200), 'C02': (2000, 600, 2000), 'C03': (2500, 200, 1000), 'C04': (1800, 1200, 1800),
+    'C05': (4500, 4000, 4500), 'C06': (400, 80, 400), 'C07': (30000, 9000, 500), 'C08': (200, 170, 250),
+    'C09': (300, 200, 200), 'C10': (5000, 60, 5000), 'C11': (800, 700, 800), 'C12': (150, 100, 150),
+    'C13': (40, 35, 40), 'C14': (180, 45, 180), 'C15': (60, 55, 60), 'C16': (1700, 650, 1700), 'C17': (100, 70, 100),
+}
+
+
 def load_known():
     if not os.path.exists(paths.KNOWN):
         return []
@@ -61,6 +72,16 @@ def finish(prop, tier, seed, t0, res, proof):
         new.append(Violation('proof obligations of %s no longer check' % prop,
                              dict(kind='proof-obligation', property=prop, errors=proof['errors'],
                                   theorems=proof['theorems']), found_input=False))
+    fl = FLOORS.get(prop)
+    if fl is not None and not res.extra.get('replay_mode'):
+        got = (res.evaluations, res.nontrivial, res.traces_validated)
+        names = ('evaluations', 'distinct non-trivial cases', 'cases validated against the implementation')
+        short = ['%s %d < %d' % (n, g, f) for n, g, f in zip(names, got, fl) if g < f]
+        if short and not any(v.found_input for v in new):
+            new.append(Violation('the run judged too little to decide %s (%s): something skipped or cut the corpus'
+                                 % (prop, '; '.join(short)),
+                                 dict(kind='coverage-floor', property=prop, got=dict(zip(names, got)), floors=dict(zip(names, fl)),
+                                      notes=res.notes[:20]), found_input=False))
     concrete = [v for v in new if v.found_input]
     broken = [v for v in new if not v.found_input]
     if concrete and broken:
